@@ -397,7 +397,7 @@ pub fn run(args: &Args) -> i32 {
         "a case = (limits, stream of hand-encoded RPC frames with lengths steered around max_transmit_size / publish count / control bytes, one chunking of the byte stream); \
          non-trivial = stream with >= 2 frames or a frame within 2 bytes of max_transmit_size; distinct by (limits, frame lengths/counts, chunk lengths)",
     );
-    let ncases = args.tier.pick(1_500u64, 40_000);
+    let ncases = args.tier.pick(1_500u64, 200_000);
     let max_frames = args.tier.pick(4usize, 6);
     vmon::par_cases(&check, ncases, args.threads, |i, rng| {
         let l = gen_limits(rng);
